@@ -76,6 +76,9 @@ type Sim struct {
 	activeSeq  int
 	// Connected: blocks that have been part of the active chain at some point (fully validated).
 	Connected map[*refchain.Block]bool
+	parentKnownInvalid, hooked bool
+	// LastHeaderOK: the last ProcessBlockHeader call returned no error
+	LastHeaderOK bool
 }
 
 // New opens a fresh node in a new temp dir.
@@ -287,6 +290,7 @@ func (s *Sim) DeliverBlock(b *refchain.Block) {
 		}
 	}
 	blk := btcutil.NewBlock(b.Msg)
+	_, _, s.parentKnownInvalid, s.hooked = nodeStatus(s.N.Chain, &b.Parent.Hash)
 	isMain, isOrphan, err := s.N.Chain.ProcessBlock(blk, blockchain.BFNone)
 	s.K.Count("op.ProcessBlock", 1)
 	rc := ruleClass(b)
@@ -345,6 +349,9 @@ func (s *Sim) acceptWithParent(b *refchain.Block, isMain, isOrphan bool, err err
 		// parent chain contains an invalid or invalidated block: the node may refuse (known invalid
 		// ancestor) or store the block, depending on what it has found out so far. Observe.
 		if direct {
+			if s.hooked && s.parentKnownInvalid && (err == nil || s.hasData(b)) {
+				s.Fail("process:stored-on-known-invalid-parent", "block %s was stored (err %v) although the index already records its parent %s as invalid", b.Name, err, b.Parent.Name)
+			}
 			if err == nil && !isOrphan {
 				s.Status[b] = SStored
 			} else if isRule(err, blockchain.ErrInvalidAncestorBlock) {
@@ -436,7 +443,10 @@ func (s *Sim) removeOrphan(b *refchain.Block) {
 // DeliverHeader offers only the header to ProcessBlockHeader.
 func (s *Sim) DeliverHeader(b *refchain.Block) {
 	s.op("hdr(%s)", b.Name)
+	_, _, parentKnownInvalid, hooked := nodeStatus(s.N.Chain, &b.Parent.Hash)
+	_, _, selfKnownInvalid, _ := nodeStatus(s.N.Chain, &b.Hash)
 	_, err := s.N.Chain.ProcessBlockHeader(&b.Msg.Header, blockchain.BFNone, false)
+	s.LastHeaderOK = err == nil
 	s.K.Count("op.ProcessBlockHeader", 1)
 	rc := ruleClass(b)
 	switch {
@@ -449,7 +459,17 @@ func (s *Sim) DeliverHeader(b *refchain.Block) {
 			s.Fail("header:accepted-invalid:"+b.Rule, "header %s violating %s was accepted", b.Name, b.Rule)
 		}
 	case !(b.Parent.ChainValid() && !s.manualInAncestry(b.Parent)) || s.Manual[b]:
-		// may be refused (known invalid ancestor) or accepted, depending on what the node knows
+		// refused exactly when the node KNOWS that the parent (or the block itself) is invalid; what it knows is
+		// read from the block index through hook H2 before the call
+		if hooked {
+			if (parentKnownInvalid || selfKnownInvalid) && err == nil {
+				s.Fail("header:accepted-on-known-invalid-branch", "header %s was accepted although the index already records its parent %s (or the block itself) as invalid", b.Name, b.Parent.Name)
+			}
+			if !parentKnownInvalid && !selfKnownInvalid && err != nil && b.Label != refchain.InvalidEarly {
+				s.Fail("header:refused-on-branch-not-known-invalid", "header %s refused (%v) although neither it nor its parent %s is recorded as invalid", b.Name, err, b.Parent.Name)
+			}
+			s.K.Count("deliver.header_on_invalid_branch", 1)
+		}
 		if err == nil && s.Status[b] == SUnknown {
 			s.Status[b] = SHeader
 		} else if err == nil && s.Status[b] == SOrphan {
